@@ -4,7 +4,7 @@
    theory/GridGameTheory.v.  Weights are exp(logit) as exact rationals; [ft_w t r] is the weight
    table t attaches to row r (0 = absent = logit -inf); [req] is dictionary equality of rows. *)
 From Coq Require Import QArith List Bool ZArith.
-From MSDM Require Import model.FactorTable model.GridGame theory.FactorTableTheory theory.GridGameTheory.
+From MSDM Require Import model.FactorTable model.GridGame theory.FactorTableTheory theory.GridGameTheory theory.GridGameMirror.
 Import ListNotations.
 Local Open Scope Q_scope.
 
@@ -86,3 +86,35 @@ Theorem gg_check_sound : forall L tol s ja d rews,
   end.
 Proof. exact gg_check_sound_thm. Qed.
 Print Assumptions gg_check_sound.
+
+(* The mirror of TabularGridGame.next_state_dist (model/GridGame.v, compared with msdm on every run), for ALL
+   layouts of any size, any number of agents, every valid non-goal state and every joint action of unit steps:
+   every listed outcome has positive probability and satisfies all the physical constraints
+   (outcome_ok: in grid, off obstacles, no wall crossing in the blocked direction, displacement in {0, commanded}
+   and at most one cell, no two agents on a cell that is not a goal of either, no swap) ... *)
+Theorem gg_constraints : forall L cur ja,
+  0 <= gFenceP L -> gFenceP L <= 1 -> cur <> [] ->
+  state_valid L cur -> actions_unit ja -> walls_proper L ->
+  is_absorbing L cur = false ->
+  forall ns p, In (ns, p) (gg_next_state_dist L (Some cur) ja) ->
+     0 < p /\ exists pos, ns = Some pos /\ outcome_ok L cur ja pos.
+Proof. exact gg_constraints_thm. Qed.
+Print Assumptions gg_constraints.
+
+(* ... and the distribution sums to 1 (agents in distinct cells, as in every reachable non-terminal state). *)
+Theorem gg_normalised : forall L cur ja,
+  0 <= gFenceP L -> gFenceP L <= 1 -> cur <> [] ->
+  state_valid L cur -> actions_unit ja -> walls_proper L ->
+  is_absorbing L cur = false -> agents_apart cur ->
+  dsum (gg_next_state_dist L (Some cur) ja) == 1.
+Proof. exact gg_normalised_thm. Qed.
+Print Assumptions gg_normalised.
+
+Theorem gg_goal_to_terminal : forall L cur ja,
+  on_own_goal L cur -> gg_next_state_dist L (Some cur) ja = [(None, 1)].
+Proof. exact gg_goal_to_terminal_thm. Qed.
+Print Assumptions gg_goal_to_terminal.
+
+Theorem gg_terminal_absorbing : forall L ja, gg_next_state_dist L None ja = [(None, 1)].
+Proof. exact gg_terminal_absorbing_thm. Qed.
+Print Assumptions gg_terminal_absorbing.
